@@ -1786,14 +1786,38 @@ bool Gen::catalogueC17(int64_t idx, Op &op) {
 
 namespace {
 const int64_t C16_CAT_PENT = 16 * 12 * 3, C16_CAT_RINGS = 16 * 3, C16_CAT_POLAR = 6 * 3 * 4, C16_CAT_GLOBE = 8,
-              C16_CAT_PENTSET = 16 * 2;
+              C16_CAT_PENTSET = 16 * 2, C16_CAT_BADSMALL = 4 * 4;
 }
 int64_t Gen::catalogueC16Size() {
-    return C16_CAT_PENT + C16_CAT_RINGS + C16_CAT_POLAR + C16_CAT_GLOBE + C16_CAT_PENTSET;
+    return C16_CAT_PENT + C16_CAT_RINGS + C16_CAT_POLAR + C16_CAT_GLOBE + C16_CAT_PENTSET + C16_CAT_BADSMALL;
 }
 bool Gen::catalogueC16(int64_t idx, Op &op) {
     op = Op();
     if (idx < 0 || idx >= catalogueC16Size()) return false;
+    if (idx >= C16_CAT_PENT + C16_CAT_RINGS + C16_CAT_POLAR + C16_CAT_GLOBE + C16_CAT_PENTSET) {
+        // the smallest error inputs: ONE index that is not a cell, alone (a set of exactly one element takes whatever
+        // special path a tree has for it) and before / after one or two valid cells
+        int j = (int)(idx - C16_CAT_PENT - C16_CAT_RINGS - C16_CAT_POLAR - C16_CAT_GLOBE - C16_CAT_PENTSET);
+        int which = j / 4, shape = j % 4;
+        int res = which == 3 ? 9 : 5;
+        H3Index good = atDistance(PENT[res][3], 4);
+        std::vector<H3Index> d = refDisk(good, 1);
+        H3Index good2 = good;
+        for (auto x : d)
+            if (x != good && x != 0) {
+                good2 = x;
+                break;
+            }
+        H3Index bad = which == 0 ? (H3Index)0x0fffffffffffffffULL
+                                 : (good & ~((H3Index)0x7f << 45)) | ((H3Index)(which == 1 ? 122 : 127) << 45);
+        op.fn = FN_cellsToLinkedMultiPolygon;
+        if (shape == 0) op.cells = {bad};
+        if (shape == 1) op.cells = {bad, good};
+        if (shape == 2) op.cells = {good, bad};
+        if (shape == 3) op.cells = {good, good2, bad};
+        op.tag = "catalogue:not-a-cell-in-a-set-of-" + std::to_string(op.cells.size()) + (shape == 1 ? "-first" : "");
+        return true;
+    }
     if (idx >= C16_CAT_PENT + C16_CAT_RINGS + C16_CAT_POLAR + C16_CAT_GLOBE) {
         // the twelve pentagons of a resolution as one sparse set (12 components, 5 or 10 vertices each), alone and
         // together with one neighbour each
